@@ -16,9 +16,16 @@ def _any(files, pat):
     return any(re.search(pat, t, re.S) for t in files.values())
 
 
+def _blocks(err, code):
+    """the diagnostics of one error code, one string per occurrence"""
+    parts = re.split(r"(?m)^(?=error(?:\[E\d+\])?:)", err)
+    return [b for b in parts if b.startswith("error[%s]" % code)]
+
+
 KF_RUSTC = [
     ("E0588", "KF_packed_contains_aligned", lambda files, err: _any(files, r"packed")),
-    ("E0424", "KF_receiverless_forward", lambda files, err: "doesn't have a `self` parameter" in err),
+    ("E0424", "KF_receiverless_forward", lambda files, err: any("vftable()" not in b for b in _blocks(err, "E0424"))),
+    ("E0424", "KF_receiverless_vfunc", lambda files, err: any("self.vftable()" in b for b in _blocks(err, "E0424"))),
     ("E0616", "KF_private_slot_cross_module", lambda files, err: "Vftable` is private" in err),
     ("E0512", "KF_void_value", lambda files, err: props.uses_void_by_value(files)),
     ("E0084", "KF_enum_no_variants", lambda files, err: True),
